@@ -287,6 +287,14 @@ pub fn errors_child(args: &Args) -> i32 {
                 tokio::time::sleep(Duration::from_millis(20)).await;
             }
         }
+        // a burst of requests in one DATA frame (registered in the same instant), never answered: all must be forgotten
+        {
+            let mut burst = vec![];
+            for k in 0..30u16 { burst.extend_from_slice(&rec73(id, "127.0.0.1".parse().unwrap(), 900 + k, 64, 0)); expected.push((900 + k, "nothing (burst, request times out)", 255, 0, false)); }
+            tx.reserve_capacity(burst.len());
+            let _ = futures::future::poll_fn(|cx| tx.poll_capacity(cx)).await;
+            let _ = tx.send_data(Bytes::from(burst), false);
+        }
         // collect the 7.4 records
         let mut got = vec![];
         loop {
@@ -299,7 +307,7 @@ pub fn errors_child(args: &Args) -> i32 {
         for rec in got.chunks(22) { if rec.len() == 22 { reports.push((u16::from_be_bytes([rec[0], rec[1]]), u16::from_be_bytes([rec[20], rec[21]]), rec[18], rec[19])); } }
         for (seq, what, t, code, must) in &expected {
             let mine: Vec<&(u16, u16, u8, u8)> = reports.iter().filter(|r| r.0 == id && r.1 == *seq).collect();
-            let size = [0u16, 8, 56, 600][((*seq as usize - 101) / kinds.len()).min(3)];
+            let size = if *seq >= 900 { 0 } else { [0u16, 8, 56, 600][((*seq as usize - 101) / kinds.len()).min(3)] };
             let w = json!({"kind":"icmp-l2-error-report","seq":seq,"request_data_size":size,"came_back":what,"reports":mine.iter().map(|r| format!("type {} code {}", r.2, r.3)).collect::<Vec<_>>()});
             if *must {
                 if mine.is_empty() { println!("CHILD-BAD an ICMP message answering a pending request was not reported to the requesting client ({}) || {}", if *t == 0 { "echo reply" } else if w["came_back"].as_str().unwrap_or("").contains("8 bytes") || w["came_back"].as_str().unwrap_or("").contains("12 bytes") { "error with a truncated quote" } else { "error with a full quote" }, w); }
